@@ -1,7 +1,8 @@
 (* LbfgsAlgebra.v — the L-BFGS model over the reals (C09):
-   update_valid = documented test; stored ρ stays 1/(yᵀs) while apply_masked is not used; apply = dense BFGS
-   inverse Hessian of the stored pairs with the documented initial scaling; H is symmetric, satisfies the secant
-   equation, is positive definite under positive curvature; apply after apply_masked is NOT H (witness). *)
+   update_valid = documented test; stored ρ stays 1/(yᵀs) under EVERY operation (apply_masked included: it only
+   writes the workspace α); apply = dense BFGS inverse Hessian of the stored pairs with the documented initial
+   scaling, after any interleaving of operations; H is symmetric, satisfies the secant equation, is positive
+   definite under positive curvature; the former F7 witness (apply after apply_masked) now gives H q. *)
 From Coq Require Import Reals List ZArith Bool Arith Lia Lra Psatz.
 From Flocq Require Import Raux.
 From Alpaqa Require Import Num NumR Vec Lbfgs LbfgsProofs.
@@ -193,17 +194,16 @@ Proof.
   intros Hf H1 H2 Hv. apply update_valid_spec in Hv. rewrite Hf in Hv. destruct Hv as (Ha & Hb & _). nra.
 Qed.
 
-(* ---------------------------------------------------------------- stored ρ = 1/(yᵀs) unless apply_masked ran *)
+(* ---------------------------------------------------------------- stored ρ = 1/(yᵀs), for every operation *)
 Section RhoInv.
   Variable pw : R -> R -> R.
   Variable P : params R.
 
   Lemma step_rho_ok st o :
-    inv P st -> rho_ok st -> (match o with OApplyM _ _ _ => False | _ => True end) ->
-    rho_ok (fst (step pw P st o)).
+    inv P st -> rho_ok st -> rho_ok (fst (step pw P st o)).
   Proof.
-    intros Hinv Hr Hno. unfold rho_ok in *.
-    destruct o as [s y pp forced|xk xn pk pn sg forced|q γ|q γ J| |n|f]; cbn [step]; try contradiction.
+    intros Hinv Hr. unfold rho_ok in *.
+    destruct o as [s y pp forced|xk xn pk pn sg forced|q γ|q γ J| |n|f]; cbn [step].
     - pose proof (update_sy_spec pw P st s y pp forced Hinv) as (_ & _ & Hf & Ht). cbn zeta in *.
       destruct (update_sy pw P st s y pp forced) as [[|] st']; cbn [fst snd] in *.
       + rewrite Ht by reflexivity. apply Forall_push; auto. reflexivity.
@@ -216,6 +216,9 @@ Section RhoInv.
       + rewrite Hf by reflexivity. exact Hr.
     - pose proof (apply_spec P st q γ) as (_ & Hh & _). cbn zeta in *.
       destruct (apply P st q γ) as [[b q'] st']. cbn [fst snd] in *. rewrite Hh. exact Hr.
+    - (* apply_masked: the stored (s, y, ρ) are not written *)
+      pose proof (apply_masked_spec pw P st q γ J) as (_ & _ & Hh & _). cbn zeta in *.
+      destruct (apply_masked pw P st q γ J) as [[b q'] st']. cbn [fst snd] in *. rewrite Hh. exact Hr.
     - cbn [fst]. destruct (reset_spec P st Hinv) as [_ Hh]. rewrite Hh. constructor.
     - destruct (resize P n) as [st'|] eqn:Hz; cbn [fst]; [|exact Hr]. rewrite (resize_hist3 _ _ _ Hz). constructor.
     - cbn [fst]. destruct (scale_y_spec P st f Hinv) as [_ Hh]. rewrite Hh.
@@ -224,13 +227,28 @@ Section RhoInv.
       unfold Rdiv. rewrite !Rmult_1_l, Rinv_mult. ring.
   Qed.
 
-  Lemma run_rho_ok ops : forall st, inv P st -> rho_ok st -> has_masked ops = false ->
+  Lemma run_rho_ok ops : forall st, inv P st -> rho_ok st ->
     inv P (run pw P ops st) /\ rho_ok (run pw P ops st).
   Proof.
-    induction ops as [|o ops IH]; intros st Hinv Hr Hm; cbn [run fold_left]; [auto|].
-    cbn [has_masked existsb] in Hm. apply orb_false_iff in Hm as [Ho Hm].
+    induction ops as [|o ops IH]; intros st Hinv Hr; cbn [run fold_left]; [auto|].
     destruct (step_refines pw P st o Hinv) as [Hi _].
-    apply IH; auto. apply step_rho_ok; auto. destruct o; auto; discriminate.
+    apply IH; auto. apply step_rho_ok; auto.
+  Qed.
+
+  (* apply_masked leaves the abstract history AND its stored ρ alone *)
+  Theorem apply_masked_keeps_history st q γ J :
+    let st' := snd (apply_masked pw P st q γ J) in
+    hist3 st' = hist3 st /\
+    (forall j, sl_s (get st' j) = sl_s (get st j) /\ sl_y (get st' j) = sl_y (get st j) /\ sl_ρ (get st' j) = sl_ρ (get st j)) /\
+    current_history st' = current_history st /\
+    (rho_ok st -> rho_ok st').
+  Proof.
+    cbn zeta. pose proof (apply_masked_spec pw P st q γ J) as (Hs & Hg & Hh & _). cbn zeta in *.
+    split; [exact Hh|]. split.
+    - intros j. specialize (Hg j). unfold syρ in Hg. injection Hg as -> -> ->. auto.
+    - split.
+      + destruct Hs as (_ & Hi & Hf & Hl). unfold current_history. rewrite Hi, Hf, Hl. reflexivity.
+      + unfold rho_ok. rewrite Hh. auto.
   Qed.
 
   (* the γ used by apply is the documented scaling *)
@@ -265,9 +283,9 @@ Section RhoInv.
       apply Forall_rev. unfold rho_ok, hist3 in Hr. rewrite Forall_map in Hr. exact Hr.
   Qed.
 
-  (* end to end: any sequence of operations without apply_masked, from construction *)
+  (* end to end: ANY sequence of operations (apply_masked included), from construction *)
   Theorem apply_after_any_history n st0 ops q γ :
-    resize P n = Some st0 -> has_masked ops = false ->
+    resize P n = Some st0 ->
     let st := run pw P ops st0 in
     let h := abs_run pw P ops [] in
     let o := snd (step pw P st (OApply q γ)) in
@@ -276,10 +294,10 @@ Section RhoInv.
     | _ => o_ret o = 1%nat /\ o_q o = Hbfgs h (doc_γ P h γ) q
     end.
   Proof.
-    intros Hz Hm. cbn zeta.
+    intros Hz. cbn zeta.
     pose proof (resize_inv _ _ _ Hz) as Hinv0.
     assert (Hr0 : rho_ok st0) by (unfold rho_ok; rewrite (resize_hist3 _ _ _ Hz); constructor).
-    destruct (run_rho_ok ops st0 Hinv0 Hr0 Hm) as [Hinv Hr].
+    destruct (run_rho_ok ops st0 Hinv0 Hr0) as [Hinv Hr].
     destruct (ring_refinement pw P n st0 ops Hz) as (Hp & Hc & _). cbn zeta in Hp, Hc.
     set (st := run pw P ops st0) in *. rewrite <- Hp.
     pose proof (apply_is_H st q γ Hinv Hr) as Ha. cbn zeta in Ha. cbn [step].
@@ -307,12 +325,12 @@ Proof.
   rewrite Hb, vdot_rdot, vsqnorm_rdot, (rdot_comm y s). reflexivity.
 Qed.
 
-(* ---------------------------------------------------------------- F7: apply after apply_masked is not H of the stored pairs *)
-Definition wP : params R := {| p_memory := 1; p_min_div_fac := 0; p_min_abs_s := 0; p_cbfgs_α := 1; p_cbfgs_ϵ := 0;
+(* ---------------------------------------------------------------- former F7 witness: apply after apply_masked IS H of the stored pairs *)
+Definition wP : params R := {| p_memory := 2; p_min_div_fac := 0; p_min_abs_s := 0; p_cbfgs_α := 1; p_cbfgs_ϵ := 0;
                                p_force_pos_def := true; p_curvature := false |}.
 Definition wpw : R -> R -> R := fun _ _ => 0.
-Definition wops : list (op R) := [OUpdSy [1; 1] [2; 1] 0 false; OApplyM [1; 0] 1 [0%nat]].
-Definition wst0 : state R := {| st_n := 2; st_idx := 0; st_full := false; st_slots := repeat (slot0 2) 1 |}.
+Definition wops : list (op R) := [OUpdSy [1; 1] [2; 1] 0 false; OApplyM [1; 0] (-1) [0%nat]].
+Definition wst0 : state R := {| st_n := 2; st_idx := 0; st_full := false; st_slots := repeat (slot0 2) 2 |}.
 
 Ltac rb := repeat (match goal with
   | |- context [Rle_bool ?a ?b] => (rewrite (Rle_bool_true a b) by lra) || (rewrite (Rle_bool_false a b) by lra)
@@ -322,27 +340,30 @@ Ltac rcompute := cbv -[Rplus Rminus Rmult Rdiv Rinv Ropp Rle_bool Rlt_bool Req_b
 
 Lemma w_resize : resize wP 2 = Some wst0.
 Proof. reflexivity. Qed.
-(* what the model (= the code) returns for apply([1,0], γ=1) after update(s=[1,1], y=[2,1]); apply_masked(·, 1, J={0}) *)
-Lemma w_apply : o_q (snd (step wpw wP (run wpw wP wops wst0) (OApply [1; 0] 1))) = [3/4; 1/4].
-Proof. rcompute. apply f_equal2; [lra|apply f_equal2; [lra|reflexivity]]. Qed.
+(* what the model (= the code) returns for apply([1,0], γ=-1) after update(s=[1,1], y=[2,1]); apply_masked([1,0], -1, J={0}) *)
+Lemma w_apply : snd (step wpw wP (run wpw wP wops wst0) (OApply [1; 0] (-1))) = {| o_ret := 1; o_q := [7/15; 1/15] |}.
+Proof. rcompute. apply f_equal2; [reflexivity|]. apply f_equal2; [lra|apply f_equal2; [lra|reflexivity]]. Qed.
+(* the masked call itself succeeded and worked on J = {0} only: q(J) = (s₀y₀/y₀²)·1 ... = [1/2], q(1) untouched *)
+Lemma w_masked : snd (step wpw wP (run wpw wP [OUpdSy [1; 1] [2; 1] 0 false] wst0) (OApplyM [1; 0] (-1) [0%nat])) = {| o_ret := 1; o_q := [1/2; 0] |}.
+Proof. rcompute. apply f_equal2; [reflexivity|]. apply f_equal2; [lra|reflexivity]. Qed.
 (* the stored pair is still (s, y) = ([1,1], [2,1]) *)
 Lemma w_pairs : pairs (run wpw wP wops wst0) = [([1; 1], [2; 1])].
 Proof. rcompute. reflexivity. Qed.
-(* the dense BFGS inverse Hessian of that pair, H₀ = I, applied to [1,0] *)
-Lemma w_H : Hbfgs [([1; 1], [2; 1])] (doc_γ wP [([1; 1], [2; 1])] 1) [1; 0] = [5/9; -1/9].
+(* the dense BFGS inverse Hessian of that pair, H₀ = (sᵀy/yᵀy) I, applied to [1,0] *)
+Lemma w_H : Hbfgs [([1; 1], [2; 1])] (doc_γ wP [([1; 1], [2; 1])] (-1)) [1; 0] = [7/15; 1/15].
 Proof. rcompute. apply f_equal2; [lra|apply f_equal2; [lra|reflexivity]]. Qed.
-(* the ρ found in storage afterwards is 1/(s₀y₀) = 1/2, not 1/(yᵀs) = 1/3 *)
-Lemma w_rho : map (fun sl => sl_ρ sl) (hist (run wpw wP wops wst0)) = [Some (1 / (0 + 1 * 2))].
-Proof. rcompute. reflexivity. Qed.
+(* the ρ found in storage afterwards is still 1/(yᵀs) = 1/3 (the J-restricted 1/(s₀y₀) = 1/2 stayed local) *)
+Lemma w_rho : map (fun sl => ρval (sl_ρ sl)) (hist (run wpw wP wops wst0)) = [1/3].
+Proof. rcompute. apply f_equal2; [lra|reflexivity]. Qed.
 
-Theorem apply_after_masked_refuted :
-  exists (pw : R -> R -> R) (P : params R) (n : nat) (st0 : state R) (ops : list (op R)) (q : list R) (γ : R),
-    resize P n = Some st0 /\ has_masked ops = true /\
-    let st := run pw P ops st0 in
-    o_ret (snd (step pw P st (OApply q γ))) = 1%nat /\
-    o_q (snd (step pw P st (OApply q γ))) <> Hbfgs (pairs st) (doc_γ P (pairs st) γ) q.
+Lemma apply_after_masked_witness :
+  resize wP 2 = Some wst0 /\ has_masked wops = true /\
+  let st := run wpw wP wops wst0 in
+  pairs st = [([1; 1], [2; 1])] /\
+  map (fun sl => ρval (sl_ρ sl)) (hist st) = [1/3] /\
+  snd (step wpw wP st (OApply [1; 0] (-1))) = {| o_ret := 1; o_q := [7/15; 1/15] |} /\
+  Hbfgs (pairs st) (doc_γ wP (pairs st) (-1)) [1; 0] = [7/15; 1/15].
 Proof.
-  exists wpw, wP, 2%nat, wst0, wops, [1; 0], 1. split; [reflexivity|]. split; [reflexivity|]. cbn zeta.
-  split; [rcompute; reflexivity|].
-  rewrite w_apply, w_pairs, w_H. intros E. injection E as E1 E2. lra.
+  split; [reflexivity|]. split; [reflexivity|]. cbn zeta.
+  split; [exact w_pairs|]. split; [exact w_rho|]. split; [exact w_apply|]. rewrite w_pairs. exact w_H.
 Qed.
